@@ -101,6 +101,7 @@ type resT struct {
 	Stuck      string           `json:"stuck,omitempty"`
 	BindError  string           `json:"bind_error,omitempty"`
 	Keys       []string         `json:"keys,omitempty"`
+	nviol      int              // violations found, including those beyond the reporting cap
 }
 
 const (
@@ -170,13 +171,19 @@ func rawInput(field, class string, variant int) any {
 		}
 		return map[any]any{field: names[class]} // what CBOR hands over
 	default:
-		switch variant % 3 {
+		switch variant % 6 {
 		case 0:
 			return map[string]any{field: "x"} // shorter than the declared minimum
 		case 1:
 			return map[string]any{"note": "no required field"}
-		default:
+		case 2:
 			return map[string]any{field: "alpha", "bogus": "undeclared"}
+		case 3:
+			return nil
+		case 4:
+			return 42 // not a map (the object has two properties: no shorthand)
+		default:
+			return map[any]any{field: nil}
 		}
 	}
 }
@@ -204,10 +211,16 @@ func handlerOutput(beh, name string, variant int) (string, any) {
 	case "undeclared":
 		return "nope", stepOut{Message: "hi " + name}
 	default: // baddata
-		if variant%2 == 0 {
+		switch variant % 4 {
+		case 0:
 			return "success", stepOut{Message: ""} // violates the minimum length
+		case 1:
+			return "success", stepErr{Error: "wrong type for this output"}
+		case 2:
+			return "success", nil
+		default:
+			return "success", map[string]any{"message": "a map where the struct is declared"}
 		}
-		return "success", stepErr{Error: "wrong type for this output"}
 	}
 }
 
@@ -574,7 +587,10 @@ func opName(c callT) string {
 }
 
 func (r *resT) miss(drift bool, c callT, class string, extra map[string]any, detail map[string]any) {
-	if len(r.Mismatches) > 30 {
+	if !drift {
+		r.nviol++
+	}
+	if len(r.Mismatches) > 40 {
 		return
 	}
 	sig := map[string]any{"op": opName(c), "class": class, "case": situation(c)}
@@ -594,12 +610,7 @@ func logLines(log []*event) []map[string]any {
 
 // judge evaluates C11's statement on one finished session; returns the number of violations.
 func judge(s *session, r *resT) int {
-	before := 0
-	for _, m := range r.Mismatches {
-		if !m.Drift {
-			before++
-		}
-	}
+	before := r.nviol
 	s.mu.Lock()
 	log := append([]*event{}, s.log...)
 	s.mu.Unlock()
@@ -737,13 +748,7 @@ func judge(s *session, r *resT) int {
 			}
 		}
 	}
-	after := 0
-	for _, m := range r.Mismatches {
-		if !m.Drift {
-			after++
-		}
-	}
-	return after - before
+	return r.nviol - before
 }
 
 // ---------------------------------------------------------------------------- replay of a schedule
@@ -809,7 +814,7 @@ func runReplay(c caseT, r *resT) {
 	for _, h := range c.Hist {
 		variant = variant*3 + h.P
 	}
-	s := newSession(c.Calls, true, 1, variant%6)
+	s := newSession(c.Calls, true, 1, variant%12)
 	for _, p := range s.procs {
 		go s.runCall(p)
 	}
@@ -893,6 +898,18 @@ loop:
 					}
 				case <-time.After(pollEvery):
 					waited += pollEvery
+					othersParked := true
+					for _, q := range s.procs {
+						if q.id != p.id && parked[q.id] == "moving" && len(pending[q.id]) == 0 {
+							othersParked = false
+						}
+					}
+					if !c.Racy && othersParked && s.blockedOnMutex(p) {
+						// structural: the goroutine waits for a mutex that only a release can free, where
+						// the specification has it arrive - the code does not follow the schedule
+						followed, why = false, fmt.Sprintf("step %d: %s(%d) expected, but the goroutine is blocked in sync.Mutex.Lock", i, h.Ev, h.P)
+						break loop
+					}
 					if c.Racy && s.blockedOnMutex(p) {
 						// structural, not timing: the goroutine sits in sync.Mutex.Lock behind another
 						// one that won a race the schedule cannot decide
@@ -949,7 +966,7 @@ loop:
 				Detail: map[string]any{"diff": d, "calls": c.Calls, "log": logLines(s.log)}, Drift: true})
 		}
 	}
-	if nviol > 0 {
+	if nviol > 0 && len(r.Mismatches) > 0 {
 		last := &r.Mismatches[len(r.Mismatches)-1]
 		last.Detail["log"] = logLines(s.log)
 		if !followed {
@@ -1076,7 +1093,7 @@ func runRandom(c caseT, r *resT) {
 				}
 			}
 		}
-		s := newSession(calls, false, c.Seed*100003+int64(k), rng.Intn(6))
+		s := newSession(calls, false, c.Seed*100003+int64(k), rng.Intn(12))
 		for _, p := range s.procs {
 			go s.runCall(p)
 		}
@@ -1100,7 +1117,9 @@ func runRandom(c caseT, r *resT) {
 				r.Mismatches[i].Detail["calls"] = calls
 				r.Mismatches[i].Detail["session_seed"] = []int64{c.Seed, int64(k)}
 			}
-			r.Mismatches[len(r.Mismatches)-1].Detail["log"] = logLines(s.log)
+			if len(r.Mismatches) > n0 {
+				r.Mismatches[len(r.Mismatches)-1].Detail["log"] = logLines(s.log)
+			}
 			continue
 		}
 		r.Clean++
@@ -1145,14 +1164,20 @@ func checkRaceLog(r *resT) {
 		for _, l := range strings.Split(rep, "\n") {
 			l = strings.TrimSpace(l)
 			if strings.HasPrefix(l, "go.flow.arcalot.io/pluginsdk/") {
-				frame = strings.TrimPrefix(l, "go.flow.arcalot.io/pluginsdk/")
-				if k := strings.Index(frame, "("); k > 0 {
-					frame = frame[:k]
+				f := strings.TrimPrefix(l, "go.flow.arcalot.io/pluginsdk/")
+				if x := strings.Index(f, "["); x >= 0 { // generic instantiation
+					if y := strings.LastIndex(f, "]"); y > x {
+						f = f[:x] + f[y+1:]
+					}
 				}
-				if k := strings.Index(frame, "["); k > 0 { // generic instantiation
-					frame = frame[:k] + frame[strings.Index(frame, "]")+1:]
+				f = strings.TrimSuffix(f, "()")
+				f = strings.NewReplacer("(*", "", ")", "").Replace(f)
+				if frame == "" || strings.HasSuffix(f, ".setupStepData") {
+					frame = f
 				}
-				break
+				if strings.HasSuffix(f, ".setupStepData") {
+					break
+				}
 			}
 		}
 		inSteps := strings.Contains(rep, "schema/step.go") || strings.Contains(rep, "schema/schema.go") || strings.Contains(rep, "schema/signal.go")
@@ -1176,7 +1201,7 @@ var bindErr string
 // schemas alone (no step machinery involved)
 func bindCheck() {
 	in, sg, outs := inScope(), sigScope(), outputs()
-	for v := 0; v < 6; v++ {
+	for v := 0; v < 12; v++ {
 		for cls, n := range names {
 			u, err := in.Unserialize(rawInput("name", cls, v))
 			if err != nil || u != (stepIn{Name: n}) {
